@@ -258,6 +258,8 @@ def run_shard(spec, acc):
     import sys
     sys.setrecursionlimit(20000)
     api = _api()
+    from .. import exec_prog
+    acc.count('prior_runs_without_globals', exec_prog.prior_runs())
     base = spec['seed'] * 1000003 + spec['shard'] * 7919 + 29
     for i in range(spec['n']):
         rnd = random.Random(base + i)
